@@ -20,6 +20,9 @@
 //     field announces) is reported with OracleFailKnown, anything else --
 //     including every failure class that was a finding before the repairs
 //     a533fa8..9c860bb -- with OracleFail.
+//   - ext.go: the repo-owned logic around third-party parsers (PEM block loops,
+//     GetRegion / CalcImageOffset) compared with its model on the third-party
+//     results; distribution of the inputs and coverage of the comparisons.
 package main
 
 import (
@@ -298,6 +301,10 @@ type H struct {
 	retried     int
 
 	threadFailures int
+
+	stats   map[string]*decStats // per decoder: input sizes, outcome classes, error kinds
+	conds   map[string]*[2]int   // per comparison of the Go code on its input: times true / false
+	plainOf map[string][]byte    // sealed key file -> the plaintext the harness sealed (password "secret")
 }
 
 func hexTrunc(b []byte) interface{} {
@@ -418,6 +425,7 @@ func (h *H) one(kind string, req request, recipe string) {
 		class, msg = "Err", rep.Msg
 	}
 	h.classes[name+"/"+class]++
+	h.stat(req, class, rep.Msg)
 	if rep.Alloc > h.maxAlloc[name] {
 		h.maxAlloc[name] = rep.Alloc
 	}
@@ -481,6 +489,18 @@ func (h *H) one(kind string, req request, recipe string) {
 		ci = c.Add(kind, lit, descr, len(req.In1) > 0)
 	} else {
 		c.Count(kind + " (oracle only)")
+	}
+
+	// the PEM block loops: the pem.Decode calls on the same bytes, and where the loop left
+	if class == "Ok" || class == "Err" {
+		switch {
+		case req.Dec == dReadPubKey:
+			h.pemCase(kind+"/pem-loop", 1, req.In1, class == "Ok", rep.Msg, descr)
+		case req.Dec == dDecryptFrame && len(req.In2) == 0:
+			h.pemCase(kind+"/pem-loop", 0, req.In1, class == "Ok", rep.Msg, descr)
+		case req.Dec == dDecryptFrame && string(req.In2) == "secret" && h.plainOf[string(req.In1)] != nil:
+			h.pemCase(kind+"/pem-loop", 0, h.plainOf[string(req.In1)], class == "Ok", rep.Msg, descr)
+		}
 	}
 
 	// independent oracle: the property itself
@@ -856,7 +876,8 @@ func main() {
 		panic(err)
 	}
 	defer os.RemoveAll(wd)
-	h := &H{c: c, sup: &supervisor{workdir: wd}, classes: map[string]int{}, known: map[string]int{}, maxAlloc: map[string]uint64{}, seconds: map[string]float64{}, hangs: map[int]bool{}, unknown: map[int]int{}}
+	h := &H{c: c, sup: &supervisor{workdir: wd}, classes: map[string]int{}, known: map[string]int{}, maxAlloc: map[string]uint64{}, seconds: map[string]float64{}, hangs: map[int]bool{}, unknown: map[int]int{},
+		stats: map[string]*decStats{}, conds: map[string]*[2]int{}, plainOf: map[string][]byte{}}
 	defer h.sup.stop()
 	h.maxModelLen = c.Scale(6000, 70000)
 	q := func(a, b int) int { return c.Scale(a, b) }
@@ -1282,8 +1303,11 @@ func main() {
 		}
 		h.run("tpmdetection.local/random", dLocalCaps, nil, b, nil, "random")
 	}
-	for a := int64(1); a <= 3; a++ {
-		h.run("tpmdetection.local/files", dLocalFiles, []int64{a}, capsSample, nil, fmt.Sprintf("device missing=%v caps missing=%v", a&1 != 0, a&2 != 0))
+	// the two file decisions in front of the capability file (modelled: Model.DecodersExt.local_files)
+	for a := int64(0); a <= 3; a++ {
+		for _, caps := range []string{string(capsSample), "TCG version: 2.0\n", "nocolon\n", "", "a:b\n"} {
+			h.run("tpmdetection.local/files", dLocalFiles, []int64{a}, []byte(caps), nil, fmt.Sprintf("device missing=%v caps missing=%v caps=%q", a&1 != 0, a&2 != 0, caps))
+		}
 	}
 
 	// ---- 17. BytesRange
@@ -1308,11 +1332,21 @@ func main() {
 		h.run("BytesRange", dBytesRange, []int64{ln, pick(), pick()}, nil, nil, "random indices")
 	}
 
+	// every (start, end) around 0 and len for three lengths: each comparison of BytesRange at equality and one off
+	for _, ln := range []int64{0, 1, 5} {
+		for st := int64(-2); st <= ln+2; st++ {
+			for en := int64(-2); en <= ln+2; en++ {
+				h.run("BytesRange/boundary", dBytesRange, []int64{ln, st, en}, nil, nil, "indices around 0 and len")
+			}
+		}
+	}
+
 	// ---- 18. DecryptPrivKey
 	for _, f := range []string{"testdata/testkeys/km_priv_key.pem", "testdata/testkeys/bpm_priv_key.pem", "testdata/testkeys/km_pub_key.pem"} {
 		pemBytes := repoFile(f)
 		h.mutate("DecryptPrivKey/plain", dDecryptFrame, nil, pemBytes, nil, f+" (no password)", q(40, 300), q(40, 400), q(10, 100), 0)
 		enc := encryptLikeRepo(pemBytes, "secret")
+		h.plainOf[string(enc)] = pemBytes
 		h.mutate("DecryptPrivKey/encrypted", dDecryptFrame, nil, enc, []byte("secret"), f+" sealed like encryptPrivFile, password secret", q(50, 300), q(20, 200), 0, 0, 12, 28)
 		h.run("DecryptPrivKey/encrypted", dDecryptFrame, nil, enc, []byte("wrong"), f+" sealed, wrong password")
 	}
@@ -1332,6 +1366,12 @@ func main() {
 		"CERTIFICATE then garbage":                  cat(pemBlock("CERTIFICATE", 64), h.rbytes(40)),
 		"CERTIFICATE then truncated key":            cat(pemBlock("CERTIFICATE", 64), kmPriv[:len(kmPriv)/2]),
 		"TRUSTED CERTIFICATE then public key":       cat(pemBlock("TRUSTED CERTIFICATE", 20), kmPub),
+		"TRUSTED CERTIFICATE then private key":      cat(pemBlock("TRUSTED CERTIFICATE", 20), kmPriv),
+		"one TRUSTED CERTIFICATE block":             pemBlock("TRUSTED CERTIFICATE", 20),
+		"CERTIFICATE REQUEST then public key":       cat(pemBlock("CERTIFICATE REQUEST", 20), kmPub),
+		"public key then private key":               cat(kmPub, kmPriv),
+		"private key then public key":               cat(kmPriv, kmPub),
+		"CERTIFICATE then public key then garbage":  cat(pemBlock("CERTIFICATE", 64), kmPub, []byte("trailing text\n")),
 		"X509 CRL then key":                         cat(pemBlock("X509 CRL", 20), kmPriv),
 		"PRIVATE KEY block with random bytes":       pemBlock("PRIVATE KEY", 100),
 		"RSA PRIVATE KEY block with random bytes":   pemBlock("RSA PRIVATE KEY", 100),
@@ -1344,7 +1384,9 @@ func main() {
 	for _, name := range sortedKeys(pemFiles) {
 		b := pemFiles[name]
 		h.run("DecryptPrivKey/pem-blocks", dDecryptFrame, nil, b, nil, name+" (no password)")
-		h.run("DecryptPrivKey/pem-blocks", dDecryptFrame, nil, encryptLikeRepo(b, "secret"), []byte("secret"), name+" sealed, password secret")
+		sealed := encryptLikeRepo(b, "secret")
+		h.plainOf[string(sealed)] = b
+		h.run("DecryptPrivKey/pem-blocks", dDecryptFrame, nil, sealed, []byte("secret"), name+" sealed, password secret")
 		h.run("ReadPubKey/pem-blocks", dReadPubKey, nil, b, nil, name)
 	}
 	for _, f := range []string{"testdata/testkeys/km_pub_key.pem", "testdata/testkeys/bpm_pub_key.pem", "testdata/testkeys/km_priv_key.pem"} {
@@ -1391,6 +1433,56 @@ func main() {
 		h.run("CalcImageOffset/ifd-signature", dIFD, []int64{0xfffffff0}, b, nil, "random bytes with the IFD signature at 16")
 	}
 
+	// GetRegion / CalcImageOffset arithmetic (modelled: Model.DecodersExt.get_region, calc_image_offset):
+	// the three layouts, region records at their extremes, addresses at the wrap-around points of uint64
+	addrs := []uint64{0, 1, 0xfffffff0, 0xffff0000, 0xffffffff, 0x100000000, 0xfffffffffffffff0, 0xffffffffffffffff, 0xffffffff00000000, 0xff000000}
+	ifdImages := map[string][]byte{
+		"fake_intel_firmware.fd (BIOS region only)": fw,
+		"descriptor + fake firmware as BIOS region": synthIFD(1, 16, 2, fw),
+		"descriptor, BIOS region out of bounds":     synthIFD(0x100, 0x1ff, 2, nil),
+		"descriptor, BIOS region base == limit":     synthIFD(3, 3, 2, nil),
+		"descriptor, BIOS region at the top":        synthIFD(0xfffe, 0xfffe, 2, nil),
+		"descriptor, BIOS region 1..0xfffe":         synthIFD(1, 0xfffe, 2, nil),
+		"descriptor, limit < base":                  synthIFD(5, 4, 2, nil),
+		"descriptor, limit 0xffff":                  synthIFD(1, 0xffff, 2, nil),
+		"descriptor, limit 0":                       synthIFD(0, 0, 2, nil),
+		"descriptor, all 15 regions parsed":         synthIFD(1, 16, 0, fw),
+		"fmap with COREBOOT area":                   synthFmap(make([]byte, 64), "COREBOOT", 0x200000, 0xe00000),
+		"fmap, COREBOOT offset+size wraps uint32":   synthFmap(make([]byte, 64), "COREBOOT", 0xffffffff, 2),
+		"fmap, COREBOOT offset+size == 2^32":        synthFmap(nil, "COREBOOT", 0xff000000, 0x01000000),
+		"fmap without COREBOOT area":                synthFmap(make([]byte, 64), "BOOTBLOCK", 0x200000, 0xe00000),
+		"fmap behind a descriptor":                  synthIFD(2, 9, 2, synthFmap(make([]byte, 8192), "COREBOOT", 0x1000, 0x2000)),
+		"two fmaps":                                 append(synthFmap(nil, "COREBOOT", 1, 2), synthFmap(nil, "COREBOOT", 3, 4)...),
+		"empty":                                     nil,
+		"48 bytes, _FVH at 40 (no layout at all)":   append(make([]byte, 40), []byte("_FVH\x00\x00\x00\x00")...),
+		"descriptor, BIOS region holds a broken FV": synthIFD(1, 1, 2, append(append(make([]byte, 40), []byte("_FVH")...), make([]byte, 4096-44)...)),
+		"19 bytes":                                  make([]byte, 19),
+		"4095 bytes with the signature":             synthIFD(1, 2, 2, nil)[:4095],
+	}
+	for _, name := range sortedKeys(ifdImages) {
+		img := ifdImages[name]
+		h.run("CalcImageOffset/layouts", dIFD, []int64{int64(addrs[2])}, img, nil, name)
+		for _, a := range addrs {
+			h.ifdCase("CalcImageOffset/layouts", img, a, name)
+		}
+	}
+	for i := 0; i < q(40, 400); i++ {
+		base, limit := uint16(h.c.Rng.Intn(0x10000)), uint16(h.c.Rng.Intn(0x10000))
+		switch h.c.Rng.Intn(4) {
+		case 0:
+			limit = base
+		case 1:
+			limit = base + uint16(h.c.Rng.Intn(4))
+		}
+		img := synthIFD(base, limit, byte(h.c.Rng.Intn(3)), nil)
+		r := fmt.Sprintf("synthetic descriptor, BIOS region base=%#x limit=%#x", base, limit)
+		if i%4 == 0 {
+			img, r = synthFmap(h.rbytes(h.c.Rng.Intn(100)), "COREBOOT", h.c.Rng.Uint32(), h.c.Rng.Uint32()), "synthetic fmap, random COREBOOT area"
+		}
+		h.run("CalcImageOffset/synthetic", dIFD, []int64{int64(addrs[i%len(addrs)])}, img, nil, r)
+		h.ifdCase("CalcImageOffset/synthetic", img, addrs[i%len(addrs)]+uint64(h.c.Rng.Intn(3))-1, r)
+	}
+
 	// ---- 107. binary event log (go-attestation): oracle only
 	elog := synthEventLog()
 	h.mutate("tpmeventlog.Parse", dEventLog, nil, elog, nil, "synthetic crypto-agile event log, 5 events", q(120, 600), q(120, 1200), q(120, 1200), 0)
@@ -1398,6 +1490,7 @@ func main() {
 		h.run("tpmeventlog.Parse/random", dEventLog, nil, h.rbytes(h.randomLen(q(2000, 65536))), nil, "random")
 	}
 
+	h.finishStats()
 	c.Rep.Extra["outcome_classes"] = h.classes
 	c.Rep.Extra["known_finding_hits"] = h.known
 	c.Rep.Extra["max_alloc_per_decoder"] = h.maxAlloc
@@ -1407,12 +1500,15 @@ func main() {
 	c.Rep.Extra["timeouts_not_confirmed"] = h.retried - len(h.hangs)
 	c.Rep.Extra["seconds_per_decoder"] = h.seconds
 	c.Rep.Notes = append(c.Rep.Notes,
-		"decoders 1..19 are modelled (Coq case per call up to "+fmt.Sprint(h.maxModelLen)+" input bytes); tools.ParseACM, UnmarshalYAML, registers.New, CalcImageOffset/GetRegion, tpmeventlog.Parse, bootguard.ReadPubKey and the third-party parsers behind them (fiano, go-attestation, yaml, json, pem/x509, aes-gcm) are fuzzed with the oracle only",
+		"decoders 1..20 are modelled (Coq case per call up to "+fmt.Sprint(h.maxModelLen)+" input bytes); tools.ParseACM, UnmarshalYAML, registers.New, tpmeventlog.Parse and the third-party parsers behind them (fiano, go-attestation, yaml, json, pem/x509, aes-gcm) are fuzzed with the oracle only",
+		"the repo-owned logic around third-party parsers is compared with its model on what the third-party call returned: CPem = the PEM block loops of parsePrivateKey / ReadPubKey over the pem.Decode calls and x509 verdicts observed on the same bytes (each call is also checked against the contract 'strictly shorter rest'); CRegion / CCalc = GetRegion / CalcImageOffset over the fiano probes (descriptor record, fmap area, BIOS region)",
+		"extra.input_distribution: per decoder the sizes of the generated inputs, the outcome classes and the kinds of errors; extra.condition_coverage: every comparison the decoders make on their input, evaluated on the generated inputs (times true / false); extra.constant_conditions must be empty",
+		"all calls of a run go through one child process (restarted only after a crash or a time-out): the decoders see each other's leftovers, if there were any (the result-origin tie shows there is no package-level state to leave)",
 		"each call runs in a child process with RLIMIT_AS = 4 GiB and a 2 s deadline (the first time-out of a decoder is confirmed with a 20 s deadline before it counts); allocation = runtime.MemStats.TotalAlloc delta around the call")
 	c.Finish("model and implementation agree on every call: same outcome class (value/error/panic/out-of-memory), same decoded value (flattened field by field), " +
 		"and model allocation <= observed allocation <= 4 x model + 1 KiB/input byte + 4 MiB; inputs = every valid sample shipped in the repository per decoder, " +
 		"their truncations (every length or a stride plus field boundaries), single bit flips, 16/32-bit little-endian length-field overwrites " +
 		"(0, 1, 0xFFFF, 0xFFFFFFFF, len-1, len, len+1, ...), 16/32/64-bit fields (every count field of the ACM info tables and of the LCP lists and elements, and random offsets) " +
 		"at the wrap-around points of 8/16/32/64-bit products and casts (ceil(k*2^W/size)+d for entry sizes 1..72, the value below, the last multiple that fits the field, 2^(W-1), 2^W-1, 2^W, 2^W+1), " +
-		"crafted hostile counts and random strings; non-trivial = non-empty input; distinct = distinct Gallina literal")
+		"crafted hostile counts and random strings; CPem: the loop leaves where the code left (key / blocks ran out / x509 error) on every key file of the run; CRegion/CCalc: same offset, size, image offset and error; non-trivial = non-empty input; distinct = distinct Gallina literal")
 }
